@@ -112,8 +112,9 @@ Proof. cbv zeta. repeat split; vm_compute; reflexivity. Qed.
    filter [?(@ inner OP number)] (CmpParse.v, CmpAddr.v; OP one of == != < <= > >=, inner a single-valued path, the number
    any spelling the grammar's lNumber accepts that strconv.ParseFloat — a parameter of the model, fstep_okp — parses)
    keeps those whose value reached by inner is a number, float64 or json.Number alike, standing in that relation to the
-   literal; for != the complement, so members from which inner reaches no number are kept (ctest / entry_test). *)
-From JP Require Import FiltParse CmpParse FiltChain FiltAddr CmpAddr FiltChainAddr.
+   literal; for != the complement, so members from which inner reaches no number are kept (ctest / entry_test).  A negated
+   existence filter [?(!@ inner)] (NegFilt.v) keeps the members from which inner reaches nothing. *)
+From JP Require Import FiltParse CmpParse NegFilt FiltChain FiltAddr CmpAddr FiltChainAddr.
 Theorem C01_filter_retrieval : forall cfg parse_float regex_ok ffun afun regex_match,
   (forall f v w, small v -> ffun f v = Some w -> small w) ->
   (forall f l w, Forall small l -> afun f l = Some w -> small w) ->
@@ -144,4 +145,11 @@ Example C01_comparison_filter_example :
   forallb fstep_ok gt = true /\ forallb (fstep_okp pf) gt = true /\
   map snd (nav_allf pf gt ([], doc)) = [VObj [("a", VJNum "3" (num_of_Z 3))]]%string /\
   List.length (nav_allf pf ne ([], doc)) = 4%nat.
+Proof. cbv zeta. repeat split; vm_compute; reflexivity. Qed.
+
+Example C01_negated_filter_example :
+  let doc := VArr [VObj [("a", VNum (num_of_Z 1))]; VObj [("b", VNum (num_of_Z 2))]; VNum (num_of_Z 3)]%string in
+  let path := [FN [RPlain (SDot [97%N])]] in
+  fchain_path path = [36; 91; 63; 40; 33; 64; 46; 97; 41; 93]%N /\ forallb fstep_ok path = true /\
+  map snd (nav_allf (fun _ => None) path ([], doc)) = [VObj [("b", VNum (num_of_Z 2))]; VNum (num_of_Z 3)]%string.
 Proof. cbv zeta. repeat split; vm_compute; reflexivity. Qed.
